@@ -7,6 +7,7 @@ import (
 	"crypto/x509"
 	"encoding/pem"
 	"errors"
+	"fmt"
 	"github.com/rs/zerolog/log"
 	"github.com/theparanoids/ysshra/agent/utils"
 	"io"
@@ -112,7 +113,14 @@ func (_ *server) RemoveSmartcardKey(readerId string, pin []byte) error {
 }
 
 // ServeAgent uses an agent (usually a server object) to serve the connection c.
-func ServeAgent(agent YubiAgent, c io.ReadWriter) error {
+func ServeAgent(agent YubiAgent, c io.ReadWriter) (err error) {
+	// A malformed request must not take the process down (the standard agent server of
+	// golang.org/x/crypto can panic while parsing a request): end this connection with an error.
+	defer func() {
+		if r := recover(); r != nil {
+			err = fmt.Errorf("yubiagent: panic while serving a request: %v", r)
+		}
+	}()
 	for {
 		req, err := read(c)
 		if err == io.EOF {
